@@ -42,6 +42,9 @@ type c11Cfg struct {
 	// Shrink: the buffer is put back as b.Slice(0, Length-1) (a window from frame 0 keeps the whole
 	// capacity and is a legal argument of Put); negZero: float holders also write -0.0
 	Shrink bool `json:"shrink,omitempty"`
+	// Pair (pools with Length 0): every goroutine holds two buffers of the pool at a time, fills the second,
+	// appends it to the first (which has exactly the room) and puts both back: the two stay two storages
+	Pair bool `json:"pair,omitempty"`
 }
 
 type c11Case struct {
@@ -181,6 +184,38 @@ func (h *c11H) Run(id int) {
 				break
 			}
 		}
+		if cfg.Pair && cfg.L == 0 {
+			schedx.Point("get second")
+			b2 := p.Get()
+			if hd := hdr(b2); hd != want {
+				h.fail(id, "cycle %d: second buffer obtained has shape %+v, a fresh one %+v", c, hd, want)
+			}
+			fb2 := full(b2)
+			tok2 := dyn.Tok(h.t, int64(2+id*10+c))
+			for i := 0; i < fb2.Len(); i++ {
+				if v := fb2.Sample(i); v.B != 0 {
+					h.fail(id, "cycle %d: second buffer obtained is not zero: sample %d reads %v (the goroutine had stamped the first one it holds with %v)", c, i, v, tok)
+					break
+				}
+				fb2.SetSample(i, tok2)
+			}
+			schedx.Point("append second to first")
+			b.Append(fb2)
+			if b.Len() != fb2.Len() || b.Cap() != cfg.C*cfg.K {
+				h.fail(id, "cycle %d: after appending a full buffer of the pool to an empty one, Len %d Cap %d (want %d, %d)", c, b.Len(), b.Cap(), fb2.Len(), cfg.C*cfg.K)
+			}
+			for i := 0; i < n; i++ {
+				fb.SetSample(i, tok)
+			}
+			for i := 0; i < fb2.Len(); i++ {
+				if v := fb2.Sample(i); v != tok2 {
+					h.fail(id, "cycle %d: sample %d of the second buffer this goroutine holds changed from %v to %v when the first one, to which it had been appended, was overwritten (two buffers of the pool share storage)", c, i, tok2, v)
+					break
+				}
+			}
+			schedx.Point("put second")
+			p.Put(b2)
+		}
 		if dyn.Types[h.t].Kind == dyn.Float && n > 0 {
 			// inverted silence: a value that compares equal to zero but is not the zero a fresh buffer holds
 			fb.SetSample(n-1, dyn.F(math.Copysign(0, -1)))
@@ -284,6 +319,7 @@ func c11Configs(tier string, race bool) []c11Cfg {
 	r = append(r, c11Cfg{T: "int8", C: 1, L: 0, K: 1<<21 + 5, G: 2, M: 1, Bound: 0})
 	if race {
 		addBig(2, 1, 2, 0)
+		r = append(r, c11Cfg{T: "int8", C: 1, L: 0, K: 2, G: 2, M: 1, Bound: 1, Pair: true})
 		// the happens-before monitor: bounded exploration (no state pruning in race mode)
 		if tier == "thorough" {
 			add(2, 1, -1, 0)
@@ -306,6 +342,8 @@ func c11Configs(tier string, race bool) []c11Cfg {
 	for _, bv := range []bool{false, true} {
 		r = append(r, c11Cfg{T: "float64", C: 2, L: 1, K: 2, G: 2, M: 2, ByValue: bv, Bound: -1, Shrink: true}, c11Cfg{T: "int16", C: 1, L: 3, K: 4, G: 2, M: 2, ByValue: bv, Bound: 2, Shrink: true})
 	}
+	// two buffers of the pool held at a time, one appended to the other
+	r = append(r, c11Cfg{T: "int8", C: 1, L: 0, K: 2, G: 2, M: 2, Bound: 1, Pair: true}, c11Cfg{T: "float64", C: 2, L: 0, K: 3, G: 2, M: 1, ByValue: true, Bound: 1, Pair: true})
 	// only a window of each buffer is kept, with a garbage collection while it is held
 	for _, bv := range []bool{false, true} {
 		r = append(r, c11Cfg{T: "int16", C: 2, L: 1, K: 2, G: 2, M: 2, ByValue: bv, Bound: 1, Window: true}, c11Cfg{T: "float64", C: 1, L: 0, K: 600, G: 2, M: 1, ByValue: bv, Bound: 2, Window: true})
